@@ -96,7 +96,7 @@ theorem dl6_succ (f : Nat) (ih : PAll6 W f) (ihd : DAll6 W K f) : DL6 W K (f + 1
           below fr hsc hinv1' hwt2 hcb hext
         simp only at hfuel
         rcases ihb with ihb | ihb
-        · exact .inl (SimF.Fails.after (n + 1 + 1) hp ihb)
+        · exact .inl (SimF.Ovf.after (n + 1 + 1) hp ihb)
         cases hrb : evalBV f b { st1 with last := acc } with
         | val w st2 =>
           rw [hrb] at ihb hfuel
@@ -190,8 +190,8 @@ theorem de6_call (hW : WOK6 W) (hK : KB W K) (f : Nat) (ih : PAll6 W f) (ihd : D
     obtain ⟨hgt, hfb⟩ := specCall_fuel hfuel3
     obtain ⟨_, hstep_le⟩ := step6_call (s0 := W.s0) (below := below) (locs := locs2) (ops := c.ops) (g := g2) (l := l2) (fr := fr)
       (m := m2) (out := out2) (fip := fip) (nlc := nlc') (ms := ms) hc3 hlen
-    rcases hstep_le (by omega) with ⟨s2, hs2⟩ | hnext
-    · exact .inl ⟨n2, _, s2, hn2, hs2⟩
+    rcases hstep_le (by omega) with hlim | hnext
+    · exact .inl ⟨n2, _, hn2, hlim⟩
     obtain ⟨hfcode, hfext, ⟨Γ1, Λ1, hyb⟩, hpok, hpsz⟩ := hW.fns fid info hft
     have hKb := hK fid info hft
     subst hip; subst hps; subst hnl; subst hbody
